@@ -1,6 +1,4 @@
-import PytezosModel.Proofs.C19Pair
-import PytezosModel.Proofs.C19Values
-import PytezosModel.Proofs.C19Grammar
+import PytezosModel.Proofs.C19Names
 /-! C19 — macro expansions have their specified Michelson meaning.
 
 `Impl.Macros.expandMacro` mirrors `expand_macro` of `src/pytezos/michelson/macros.py` (regex table, `prim_tags`,
@@ -9,19 +7,11 @@ of the instructions expansions are made of, for an arbitrary semantics `ext` of 
 passed to a macro is arbitrary).  `Spec.*` are the definitions of the Michelson reference.  Every theorem is about the
 expansion the mirror produces, for all stacks (equality of stack transformers), all annotations the code accepts, and
 all names of the family. -/
+set_option linter.unusedSimpArgs false
 namespace C19
-open Impl.Macros Generated.C19 Spec Sem C19.Dispatch C19.Expand C19.Pair C19.Values C19.Grammar
+open Impl.Macros Generated.C19 Spec Sem C19.Dispatch C19.Expand C19.Pair C19.Values C19.Grammar C19.Names
 
 /-! ### comparison, conditional and assertion macros -/
-
-theorem eval_op (ext : Ext) (op : List Char) (hop : op ∈ ops) (an : List String) :
-    eval ext (.prim (String.ofList op) [] an) = eval ext (prim0 (String.ofList op)) := by
-  simp only [ops, List.mem_cons, List.not_mem_nil, or_false] at hop
-  funext S
-  rcases hop with rfl | rfl | rfl | rfl | rfl | rfl <;> simp [eval, op0, prim0]
-
-theorem eval_COMPARE (ext : Ext) (an : List String) : eval ext (.prim "COMPARE" [] an) = compareStep := by
-  funext S; simp [eval, op0]
 
 /-- `CMP{EQ,…}` = `COMPARE ; {EQ,…}` -/
 theorem cmpx (op : List Char) (hop : op ∈ ops) (an : List String) (ext : Ext) :
@@ -31,7 +21,6 @@ theorem cmpx (op : List Char) (hop : op ∈ ops) (an : List String) (ext : Ext) 
     rcases hop with rfl | rfl | rfl | rfl | rfl | rfl <;> rfl
   · simp only [Spec.cmpx, eval_seq, evalSeq_cons', eval_op ext op hop an]
     rfl
-
 
 /-- a code argument makes `CMP{…}` an error (`assert not args`) -/
 theorem cmpx_rejects_args (op : List Char) (hop : op ∈ ops) (an : List String) (a : Mich) (args : List Mich) :
@@ -67,10 +56,6 @@ theorem ifx_rejects_one_branch (op : List Char) (hop : op ∈ ops) (an : List St
 /-- `FAIL` = `UNIT ; FAILWITH` -/
 theorem fail (ext : Ext) :
     ∃ m, expandMacro "FAIL".toList [] [] = .ok m ∧ eval ext m = eval ext Spec.FAIL := ⟨Spec.FAIL, rfl, rfl⟩
-
-/-- so `FAIL` fails with `Unit` on every stack -/
-theorem fail_meaning (ext : Ext) (S : Stack) : eval ext Spec.FAIL S = .failed .unit := by
-  simp [Spec.FAIL, prim0, eval, evalSeq, op0, unitStep, failwithStep]
 
 theorem fail_rejects_annots (a : String) (an : List String) :
     expandMacro "FAIL".toList (a :: an) [] = .error .assertion := rfl
@@ -126,10 +111,59 @@ theorem if_right (bt bf : Mich) (ext : Ext) :
     ∃ m, expandMacro "IF_RIGHT".toList [] [bt, bf] = .ok m ∧ eval ext m = eval ext (Spec.ifRight bt bf) :=
   ⟨.seq [Spec.ifRight bt bf], by rfl, by rw [eval_seq, evalSeq_one]⟩
 
-/-- what that means: the first branch runs on `v : S` for `Some v`, the second on `S` for `None` -/
-theorem if_some_meaning (bt bf : Mich) (ext : Ext) :
-    eval ext (Spec.ifSome bt bf) = ifNone (eval ext bf) (eval ext bt) := by
-  funext S; simp [Spec.ifSome, eval]
+/-- `CMP{op}` on two ints leaves the boolean `a op b` -/
+theorem cmpx_value (op : List Char) (hop : op ∈ ops) (an : List String) (ext : Ext) (a b : Int) (S : Stack) :
+    ∃ m, expandMacro ("CMP".toList ++ op) an [] = .ok m ∧
+      eval ext m (.int a :: .int b :: S) = .ok (.bool (opTest op (cmpInt a b)) :: S) := by
+  obtain ⟨m, hm, he⟩ := cmpx op hop an ext
+  refine ⟨m, hm, ?_⟩
+  rw [he, ← test_value op hop ext _ (cmpInt_cases a b) S]
+  simp only [Spec.cmpx, eval_seq, evalSeq_cons', evalSeq_nil', seqF_ok_right]
+  rfl
+
+/-- `ASSERT_CMP{op}` on two ints: continues without them if `a op b`, fails with `Unit` otherwise -/
+theorem assert_cmpx_value (op : List Char) (hop : op ∈ ops) (ext : Ext) (a b : Int) (S : Stack) :
+    ∃ m, expandMacro ("ASSERT_CMP".toList ++ op) [] [] = .ok m ∧
+      eval ext m (.int a :: .int b :: S) = if opTest op (cmpInt a b) then .ok S else .failed .unit := by
+  obtain ⟨m, hm, he⟩ := assert_cmpx op hop ext
+  refine ⟨m, hm, ?_⟩
+  rw [he]
+  have h1 : eval ext (Spec.assertCmpx (String.ofList op)) (.int a :: .int b :: S) =
+      (eval ext (prim0 (String.ofList op)) (.int (cmpInt a b) :: S)).bind
+        (eval ext (.prim "IF" [.seq [], .seq [Spec.FAIL]] [])) := by
+    simp only [Spec.assertCmpx, Spec.ifcmpx, eval_seq, evalSeq_cons', evalSeq_nil', seqF_ok_right]
+    rfl
+  rw [h1, test_value op hop ext _ (cmpInt_cases a b) S]
+  cases opTest op (cmpInt a b) <;>
+    simp [Spec.FAIL, prim0, eval, evalSeq, op0, ifBool, unitStep, failwithStep]
+
+/-- `ASSERT`: `True` is consumed, `False` fails with `Unit` -/
+theorem assert_value (ext : Ext) (S : Stack) :
+    ∃ m, expandMacro "ASSERT".toList [] [] = .ok m ∧
+      eval ext m (.bool true :: S) = .ok S ∧ eval ext m (.bool false :: S) = .failed .unit := by
+  obtain ⟨m, hm, he⟩ := assert_ ext
+  refine ⟨m, hm, ?_, ?_⟩ <;> rw [he] <;>
+    simp [Spec.assert, Spec.FAIL, prim0, eval, evalSeq, op0, ifBool, unitStep, failwithStep]
+
+/-- `ASSERT_SOME`: `Some v` is replaced by `v`, `None` fails with `Unit` -/
+theorem assert_some_value (an : List String) (ext : Ext) (v : Val) (S : Stack) :
+    ∃ m, expandMacro "ASSERT_SOME".toList an [] = .ok m ∧
+      eval ext m (.some v :: S) = .ok (v :: S) ∧ eval ext m (.none :: S) = .failed .unit := by
+  obtain ⟨m, hm, he⟩ := assert_some an ext
+  refine ⟨m, hm, ?_, ?_⟩ <;> rw [he] <;>
+    simp [Spec.assertSome, Spec.FAIL, prim0, eval, evalSeq, op0, ifNone, unitStep, failwithStep, renameStep]
+
+/-- `ASSERT_LEFT`: `Left v` is replaced by `v`, `Right v` fails with `Unit`; `ASSERT_RIGHT` the other way round -/
+theorem assert_left_right_value (an : List String) (ext : Ext) (v : Val) (S : Stack) :
+    (∃ m, expandMacro "ASSERT_LEFT".toList an [] = .ok m ∧
+      eval ext m (.left v :: S) = .ok (v :: S) ∧ eval ext m (.right v :: S) = .failed .unit) ∧
+    (∃ m, expandMacro "ASSERT_RIGHT".toList an [] = .ok m ∧
+      eval ext m (.right v :: S) = .ok (v :: S) ∧ eval ext m (.left v :: S) = .failed .unit) := by
+  obtain ⟨m, hm, he⟩ := assert_left an ext
+  obtain ⟨m', hm', he'⟩ := assert_right an ext
+  refine ⟨⟨m, hm, ?_, ?_⟩, ⟨m', hm', ?_, ?_⟩⟩ <;> (first | rw [he] | rw [he']) <;>
+    simp [Spec.assertLeft, Spec.assertRight, Spec.FAIL, prim0, eval, evalSeq, op0, ifLeft, unitStep, failwithStep,
+      renameStep]
 
 -- non-vacuity: the expansions are the ones test_macros.py lists, and they compute
 example : expandMacro "CMPLE".toList ["@c"] [] = .ok (.seq [.prim "COMPARE" [] [], .prim "LE" [] ["@c"]]) := rfl
@@ -139,15 +173,15 @@ example : eval (fun _ _ _ _ => .err) Spec.assert [.bool false, .atom "x"] = .fai
 example : eval (fun _ _ _ _ => .err) Spec.assertNone [.some (.atom "a"), .atom "x"] = .failed .unit := by decide
 example : eval (fun _ _ _ _ => .err) (Spec.assertSome ["@a"]) [.some (.atom "a"), .atom "x"] = .ok [.atom "a", .atom "x"] := by
   decide
-
+example : expandMacro "IFCMPGE".toList [] [.seq [.prim "UNIT" [] []], .seq []] =
+    .ok (.seq [.seq [.prim "COMPARE" [] [], .prim "GE" [] []], .prim "IF" [.seq [.prim "UNIT" [] []], .seq []] []]) := rfl
+example : eval (fun _ _ _ _ => .err) (Spec.ifcmpx "GE" (.seq [.prim "UNIT" [] []]) (.seq [])) [.int 5, .int 3, .atom "x"] =
+    .ok [.unit, .atom "x"] := by decide
+example : eval (fun _ _ _ _ => .err) (Spec.ifRight (.seq [.prim "DROP" [] []]) (.seq [])) [.right (.atom "r"), .atom "x"] =
+    .ok [.atom "x"] := by decide
+example : opTest ['L', 'E'] (cmpInt 3 5) = true := by decide
 
 /-! ### `DI…IP`, `DU…UP` -/
-
-theorem runHandler_dixp (recur : Recur) (g : List Char) (code : Mich) :
-    runHandler recur "expand_dixp" g [] [code] = .ok (dipN (.seq [code]) g.length) := rfl
-
-theorem runHandler_duxp (recur : Recur) (g : List Char) (an : List String) :
-    runHandler recur "expand_duxp" g an [] = .ok (.prim "DUP" [.int g.length] an) := rfl
 
 /-- `D I^n P code` (n ≥ 2) is `n` nested `DIP`s — the reference definition `DII+P code > DIP (DI+P code)` — and the
 same as the instruction `DIP n code` -/
@@ -174,15 +208,6 @@ theorem duxp (n : Nat) (hn : 2 ≤ n) (an : List String) (ext : Ext) :
     simp [Except.map, seqM]
   · rw [eval_seq, evalSeq_one, eval_DUPn, duxp_eq_dupN n (by omega)]
   · rw [eval_seq, evalSeq_one, eval_DUPn, eval_DUPn]
-
-/-- value reading: the `n`-th element (1 = top) is copied to the top; shorter stacks are an error -/
-theorem duxp_value (n : Nat) (hn : 1 ≤ n) (S : Stack) :
-    Spec.duxp n S = match S[n - 1]? with
-      | some v => .ok (v :: S)
-      | none => .err := by
-  rw [duxp_eq_dupN n hn]
-  obtain ⟨k, rfl⟩ : ∃ k, n = k + 1 := ⟨n - 1, by omega⟩
-  cases h : S[k]? <;> simp [dupN, h]
 
 example : expandMacro (dipName 3) [] [.seq [.prim "DROP" [] []]] =
     .ok (.seq [.prim "DIP" [.int 3, .seq [.seq [.prim "DROP" [] []]]] []]) := by rfl
@@ -214,17 +239,6 @@ theorem cxr (p : Path) (hp : 2 ≤ p.length) (an : List String) (ext : Ext) :
         rfl
       · rw [eval_seq, evalSeq_cons', eval_CDR, hev]; rfl
 
-/-- value reading: the component of the top element at the path; anything else is an error -/
-theorem cxr_value (p : Path) (hp : p ≠ []) (S : Stack) :
-    Spec.cxr p S = match S with
-      | v :: S' => (match getPath p v with
-        | some w => .ok (w :: S')
-        | none => .err)
-      | [] => .err := by
-  cases S with
-  | nil => exact cxr_nil p hp
-  | cons v S' => cases h : getPath p v <;> simp [Values.cxr_value, pushVal, h]
-
 example : expandMacro (cadrName [.A, .D, .D]) [] [] =
     .ok (.seq [.prim "CAR" [] [], .prim "CDR" [] [], .prim "CDR" [] []]) := by rfl
 example : Spec.cxr [.A, .D] [.pair (.pair (.atom "x") (.atom "y")) (.atom "z"), .atom "s"] = .ok [.atom "y", .atom "s"] := by
@@ -253,18 +267,6 @@ theorem set_cxr (p : Path) (hp : 1 ≤ p.length) (an : List String) (ext : Ext) 
   | cons e q => cases d
                 · exact key _ _ (dispatch_set_A (e :: q) (by simp)) H21.2
                 · exact key _ _ (dispatch_set_D (e :: q) (by simp)) H22.2
-
-/-- value reading: exactly the addressed component of the top element is replaced by the second element -/
-theorem set_cxr_value (p : Path) (S : Stack) :
-    Spec.setCxr p S = match S with
-      | v :: x :: S' => (match setPath p v x with
-        | some v' => .ok (v' :: S')
-        | none => .err)
-      | _ => .err := by
-  match S with
-  | [] => exact setCxr_nil p
-  | [v] => exact setCxr_one p v
-  | v :: x :: S' => cases h : setPath p v x <;> simp [setCxr_value, pushVal, h]
 
 example : Spec.setCxr [.A, .D] [.pair (.pair (.atom "x") (.atom "y")) (.atom "z"), .atom "new", .atom "s"] =
     .ok [.pair (.pair (.atom "x") (.atom "new")) (.atom "z"), .atom "s"] := by decide
@@ -300,54 +302,11 @@ theorem map_car_rejects_two_field_annots (an : List String) (hA : 2 ≤ (fieldAn
   rw [expandMacro, expand_step _ _ _ _ _ _ _ dispatch_MAP_CAR H23.2, H23.1, runHandler_map_car, mapCxrAnnots_err an hA]
   rfl
 
-/-- value reading for code that only rewrites the element it is given (`code (x : T) = f x : T` for every `T`):
-exactly the addressed component is replaced by its image -/
-theorem map_cxr_value (p : Path) (c : F) (f : Val → Val) (hc : Local c f) (v : Val) (S : Stack) :
-    Spec.mapCxr p c (v :: S) = match mapPath p f v with
-      | some v' => .ok (v' :: S)
-      | none => .err := by
-  rw [mapCxr_value p c f hc]; cases mapPath p f v <;> rfl
-
-/-- what the code sees: `MAP_CAR` gives it the component on top of the rest of the stack … -/
-theorem map_car_sees (c : F) (a b : Val) (S : Stack) :
-    Spec.mapCxr [.A] c (.pair a b :: S) = (c (a :: S)).bind fun T => pairStep (match T with
-      | a' :: T' => a' :: b :: T'
-      | [] => []) := by
-  simp only [mapCxr, seqF, dupStep, cdrStep, bind_ok, under, under_zero, carStep]
-  cases c (a :: S) with
-  | ok T => cases T <;> simp [swapStep, pairStep]
-  | failed v => rfl
-  | err => rfl
-
-/-- … while `MAP_CDR` gives it the component on top of the *original pair* -/
-theorem map_cdr_sees (c : F) (a b : Val) (S : Stack) :
-    Spec.mapCxr [.D] c (.pair a b :: S) = (c (b :: .pair a b :: S)).bind (swapStep ⨾ carStep ⨾ pairStep) := by
-  simp only [mapCxr, seqF, dupStep, cdrStep, bind_ok, bind_assoc]
-  congr 1
-  funext T
-  show _ = ((swapStep T).bind carStep).bind pairStep
-  rw [bind_assoc]
-
 example : Spec.mapCxr [.A, .D] (fun S => match S with | x :: T => .ok (.some x :: T) | [] => .err)
     [.pair (.pair (.atom "x") (.atom "y")) (.atom "z"), .atom "s"] =
     .ok [.pair (.pair (.atom "x") (.some (.atom "y"))) (.atom "z"), .atom "s"] := by decide
 
-
 /-! ### `P…R` / `UNP…R` trees -/
-
-theorem runHandler_pxr (recur : Recur) (g : List Char) (an : List String) :
-    runHandler recur "expand_pxr" g an [] =
-      (buildPxrTree g (fieldAnnots an)).bind fun t => .ok (.seq (pxrWalk (pairProduce an) t).reverse) := by
-  show (do let res ← traversePxr g (fieldAnnots an) (pairProduce an); pure (Mich.seq res) : M Mich) = _
-  unfold traversePxr
-  cases buildPxrTree g (fieldAnnots an) <;> rfl
-
-theorem runHandler_unpxr (recur : Recur) (g : List Char) (an : List String) :
-    runHandler recur "expand_unpxr" g an [] =
-      (buildPxrTree g an).bind fun t => .ok (.seq (pxrWalk unpairProduce t).reverse.reverse) := by
-  show (do let res ← traversePxr g an unpairProduce; pure (Mich.seq res.reverse) : M Mich) = _
-  unfold traversePxr
-  cases buildPxrTree g an <;> rfl
 
 /-- for EVERY tree with at least three leaves (`PAIR` itself is an instruction): the expansion of the `P…R` name of the
 tree computes the reference meaning `P(left)(right)R > (left)R ; DIP ((right)R) ; PAIR` — on all stacks, with any
@@ -360,17 +319,6 @@ theorem pair_tree (l r : PairTree) (h3 : 3 ≤ (PairTree.node l r).leaves) (an :
     rfl
   · rw [eval_seq, walk_pair, Kp_eq, Up, under_zero]
 
-/-- value reading of `P…R`: the leaves are taken from the top of the stack, left to right, and replaced by the nested
-pair; a stack with fewer elements than leaves is an error -/
-theorem pair_tree_value (l r : PairTree) (S : Stack) :
-    Spec.build (.node l r) S = match treeVal? (.node l r) S with
-      | some (v, S') => .ok (v :: S')
-      | none => .err := by
-  rw [build_value (.node l r) S (by intro h; cases h)]
-  cases treeVal? (.node l r) S with
-  | none => rfl
-  | some x => rfl
-
 /-- the same for `UNP…R`: `UNP(left)(right)R > UNPAIR ; DIP (UN(right)R) ; UN(left)R` -/
 theorem unpair_tree (l r : PairTree) (h3 : 3 ≤ (PairTree.node l r).leaves) (an : List String) (ext : Ext) :
     ∃ m, expandMacro (unpairName (.node l r)) an [] = .ok m ∧ eval ext m = Spec.unbuild (.node l r) := by
@@ -379,17 +327,6 @@ theorem unpair_tree (l r : PairTree) (h3 : 3 ≤ (PairTree.node l r).leaves) (an
       buildPxrTree_node]
     rfl
   · rw [eval_seq, List.reverse_reverse, walk_unpair, Ku_eq, Uu, under_zero]
-
-/-- value reading of `UNP…R`: the top element must be a nested pair of that shape and is replaced by its leaves -/
-theorem unpair_tree_value (l r : PairTree) (S : Stack) :
-    Spec.unbuild (.node l r) S = match S with
-      | v :: S' => (match flatten? (.node l r) v with
-        | some ls => .ok (ls ++ S')
-        | none => .err)
-      | [] => .err := by
-  cases S with
-  | nil => rfl
-  | cons v S' => cases h : flatten? (.node l r) v <;> simp [unbuild_value, pushList, h]
 
 /-- each `UNP…R` undoes the matching `P…R`: running the expansion of `UNP…R` after the expansion of `P…R` restores the
 stack, for every tree and every stack on which `P…R` succeeds -/
@@ -401,7 +338,7 @@ theorem unpair_undoes_pair (l r : PairTree) (h3 : 3 ≤ (PairTree.node l r).leav
   obtain ⟨mu, hu, heu⟩ := unpair_tree l r h3 an' ext
   refine ⟨mp, mu, hp, hu, ?_⟩
   intro S S' h
-  rw [hep, pair_tree_value] at h
+  rw [hep, spec_pair_tree_value] at h
   rw [heu]
   cases ht : treeVal? (.node l r) S with
   | none => rw [ht] at h; cases h
@@ -411,7 +348,7 @@ theorem unpair_undoes_pair (l r : PairTree) (h3 : 3 ≤ (PairTree.node l r).leav
     simp only [Result.ok.injEq] at h
     subst h
     obtain ⟨ls, hf, hls⟩ := flatten_treeVal _ _ _ _ ht
-    rw [unpair_tree_value]
+    rw [spec_unpair_tree_value]
     simp only [hf, hls]
 
 example : expandMacro (pairName (.node .leaf (.node (.node .leaf .leaf) .leaf))) [] [] =
@@ -427,200 +364,96 @@ example : expandMacro "PAAIR".toList [] [] = .error .assertion := by rfl
 example : expandMacro "PAIAIR".toList [] [] = .error .assertion := by rfl
 example : expandMacro "PPPPR".toList [] [] = .error .assertion := by rfl
 
+/-! ### value-level readings of the expansions (what the reference meanings say about stacks and values) -/
+
+/-- `FAIL` fails with `Unit` on every stack -/
+theorem fail_value (ext : Ext) (S : Stack) :
+    ∃ m, expandMacro "FAIL".toList [] [] = .ok m ∧ eval ext m S = .failed .unit :=
+  ⟨Spec.FAIL, rfl, spec_fail_meaning ext S⟩
+
+/-- `IF_SOME bt bf`: `bt` runs on `v : S` for `Some v`, `bf` on `S` for `None` -/
+theorem if_some_value (bt bf : Mich) (ext : Ext) :
+    ∃ m, expandMacro "IF_SOME".toList [] [bt, bf] = .ok m ∧ eval ext m = ifNone (eval ext bf) (eval ext bt) := by
+  obtain ⟨m, hm, he⟩ := if_some bt bf ext
+  exact ⟨m, hm, by rw [he, spec_if_some_meaning]⟩
+
+/-- `D U^n P` copies the `n`-th element (1 = top) to the top; shorter stacks are an error -/
+theorem duxp_value (n : Nat) (hn : 2 ≤ n) (an : List String) (ext : Ext) :
+    ∃ m, expandMacro (dupName n) an [] = .ok m ∧ ∀ S : Stack, eval ext m S = match S[n - 1]? with
+      | some v => .ok (v :: S)
+      | none => .err := by
+  obtain ⟨m, hm, he, _⟩ := duxp n hn an ext
+  exact ⟨m, hm, fun S => by rw [he]; exact spec_duxp_value n (by omega) S⟩
+
+/-- `C[AD]+R` replaces the top element by its component at the path; anything else is an error (path projection, for
+every path) -/
+theorem cxr_value (p : Path) (hp : 2 ≤ p.length) (an : List String) (ext : Ext) :
+    ∃ m, expandMacro (cadrName p) an [] = .ok m ∧ ∀ S : Stack, eval ext m S = match S with
+      | v :: S' => (match getPath p v with
+        | some w => .ok (w :: S')
+        | none => .err)
+      | [] => .err := by
+  obtain ⟨m, hm, he⟩ := cxr p hp an ext
+  exact ⟨m, hm, fun S => by rw [he]; exact spec_cxr_value p (by intro h; subst h; simp at hp) S⟩
+
+/-- `SET_C[AD]+R` replaces exactly the addressed component of the top element by the second element -/
+theorem set_cxr_value (p : Path) (hp : 1 ≤ p.length) (an : List String) (ext : Ext) :
+    ∃ m, expandMacro (setName p) an [] = .ok m ∧ ∀ S : Stack, eval ext m S = match S with
+      | v :: x :: S' => (match setPath p v x with
+        | some v' => .ok (v' :: S')
+        | none => .err)
+      | _ => .err := by
+  obtain ⟨m, hm, he⟩ := set_cxr p hp an ext
+  exact ⟨m, hm, fun S => by rw [he]; exact spec_set_cxr_value p S⟩
+
+/-- `MAP_C[AD]+R code`, for code that only rewrites the element it is given (`code (x : T) = f x : T` for every `T`):
+exactly the addressed component of the top element is replaced by its image -/
+theorem map_cxr_value (p : Path) (hp : 1 ≤ p.length) (an : List String) (hA : (fieldAnnots an).length ≤ 1)
+    (code : Mich) (ext : Ext) (f : Val → Val) (hc : Local (eval ext code) f) :
+    ∃ m, expandMacro (mapName p) an [code] = .ok m ∧ ∀ (v : Val) (S : Stack), eval ext m (v :: S) =
+      match mapPath p f v with
+      | some v' => .ok (v' :: S)
+      | none => .err := by
+  obtain ⟨m, hm, he⟩ := map_cxr p hp an hA code ext
+  exact ⟨m, hm, fun v S => by rw [he]; exact spec_map_cxr_value p _ f hc v S⟩
+
+/-- what the code passed to `MAP_CAR` sees: the component on top of the rest of the stack (the pair is not below) -/
+theorem map_car_sees (an : List String) (hA : (fieldAnnots an).length ≤ 1) (code : Mich) (ext : Ext) :
+    ∃ m, expandMacro (mapName [.A]) an [code] = .ok m ∧ ∀ (a b : Val) (S : Stack),
+      eval ext m (.pair a b :: S) = (eval ext code (a :: S)).bind fun T => pairStep (match T with
+        | a' :: T' => a' :: b :: T'
+        | [] => []) := by
+  obtain ⟨m, hm, he⟩ := map_cxr [.A] (by simp) an hA code ext
+  exact ⟨m, hm, fun a b S => by rw [he]; exact spec_map_car_sees _ a b S⟩
+
+/-- what the code passed to `MAP_CDR` sees: the component on top of the *original pair* -/
+theorem map_cdr_sees (an : List String) (hA : (fieldAnnots an).length ≤ 1) (code : Mich) (ext : Ext) :
+    ∃ m, expandMacro (mapName [.D]) an [code] = .ok m ∧ ∀ (a b : Val) (S : Stack),
+      eval ext m (.pair a b :: S) = (eval ext code (b :: .pair a b :: S)).bind (swapStep ⨾ carStep ⨾ pairStep) := by
+  obtain ⟨m, hm, he⟩ := map_cxr [.D] (by simp) an hA code ext
+  exact ⟨m, hm, fun a b S => by rw [he]; exact spec_map_cdr_sees _ a b S⟩
+
+/-- `P…R`: the leaves are taken from the top of the stack, left to right, and replaced by the nested pair of the
+tree's shape; a stack with fewer elements than leaves is an error -/
+theorem pair_tree_value (l r : PairTree) (h3 : 3 ≤ (PairTree.node l r).leaves) (an : List String) (ext : Ext) :
+    ∃ m, expandMacro (pairName (.node l r)) an [] = .ok m ∧ ∀ S : Stack, eval ext m S =
+      match treeVal? (.node l r) S with
+      | some (v, S') => .ok (v :: S')
+      | none => .err := by
+  obtain ⟨m, hm, he⟩ := pair_tree l r h3 an ext
+  exact ⟨m, hm, fun S => by rw [he]; exact spec_pair_tree_value l r S⟩
+
+/-- `UNP…R`: the top element must be a nested pair of the tree's shape and is replaced by its leaves -/
+theorem unpair_tree_value (l r : PairTree) (h3 : 3 ≤ (PairTree.node l r).leaves) (an : List String) (ext : Ext) :
+    ∃ m, expandMacro (unpairName (.node l r)) an [] = .ok m ∧ ∀ S : Stack, eval ext m S = match S with
+      | v :: S' => (match flatten? (.node l r) v with
+        | some ls => .ok (ls ++ S')
+        | none => .err)
+      | [] => .err := by
+  obtain ⟨m, hm, he⟩ := unpair_tree l r h3 an ext
+  exact ⟨m, hm, fun S => by rw [he]; exact spec_unpair_tree_value l r S⟩
 
 /-! ### the name grammar -/
-
-theorem pxr_run_inv (recur : Recur) (g : List Char) (an : List String) (args : List Mich) (res : Mich)
-    (h : runHandler recur "expand_pxr" g an args = .ok res) : ∃ px, buildPxrTree g (fieldAnnots an) = .ok px := by
-  cases args with
-  | cons a as => exact absurd h (by show Except.error Err.assertion ≠ _; simp)
-  | nil =>
-    rw [runHandler_pxr] at h
-    cases hb : buildPxrTree g (fieldAnnots an) with
-    | ok px => exact ⟨px, rfl⟩
-    | error e => rw [hb] at h; cases h
-
-theorem unpxr_run_inv (recur : Recur) (g : List Char) (an : List String) (args : List Mich) (res : Mich)
-    (h : runHandler recur "expand_unpxr" g an args = .ok res) : ∃ px, buildPxrTree g an = .ok px := by
-  cases args with
-  | cons a as => exact absurd h (by show Except.error Err.assertion ≠ _; simp)
-  | nil =>
-    rw [runHandler_unpxr] at h
-    cases hb : buildPxrTree g an with
-    | ok px => exact ⟨px, rfl⟩
-    | error e => rw [hb] at h; cases h
-
-/-- a successful `expand` of a non-primitive went through a table entry whose regex matched and whose handler
-succeeded -/
-theorem expand_ok_inv (fuel : Nat) (s : List Char) (an : List String) (args : List Mich) (internal : Bool) (m : Mich)
-    (ht : tags.contains s = false) (h : expand (fuel + 1) s an args internal = .ok m) :
-    ∃ hd g res, dispatch handlers s = .ok (some (hd, g)) ∧
-      runHandler (fun p a r => expand fuel p a r true) hd.func g an args = .ok res := by
-  have hc : coreOk = true := rfl
-  rw [expand, primTags_eq] at h
-  simp only [hc, ht, Bool.not_true, Bool.false_eq_true, if_false, bind, Except.bind] at h
-  cases hd : dispatch handlers s with
-  | error e => rw [hd] at h; cases h
-  | ok o =>
-    rw [hd] at h
-    cases o with
-    | none => cases h
-    | some x =>
-      obtain ⟨hh, g⟩ := x
-      simp only at h
-      split at h
-      · cases h
-      · cases hr : runHandler (fun p a r => expand fuel p a r true) hh.func g an args with
-        | error e => rw [hr] at h; cases h
-        | ok res => exact ⟨hh, g, res, rfl, hr⟩
-
-theorem macroName_of_accepts (s : List Char) (hnl : '\n' ∉ s) (ht : tags.contains s = false) (args : List Mich)
-    (m : Mich) (h : expandMacro s [] args = .ok m) : MacroName s := by
-  obtain ⟨hd, g, res, hdisp, hrun⟩ := expand_ok_inv _ _ _ _ _ _ ht h
-  obtain ⟨p, hmem, hp, hf⟩ := dispatch_inv _ _ _ _ hdisp
-  simp only [handlers, List.mem_cons, List.not_mem_nil, or_false] at hmem
-  rcases hmem with rfl | rfl | rfl | rfl | rfl | rfl | rfl | rfl | rfl | rfl | rfl | rfl | rfl | rfl | rfl | rfl | rfl | rfl | rfl | rfl | rfl | rfl | rfl | rfl | rfl | rfl | rfl
-  all_goals (simp only [Option.some.injEq] at hp; subst hp)
-  · -- handler 0
-    obtain ⟨hs', hg⟩ := shape_alts _ _ _ _ hnl hf
-    have hop : g ∈ ops := by
-      simp only [List.mem_cons, List.not_mem_nil, or_false] at hg
-      rcases hg with h | h | h | h | h | h <;> simp [ops, h]
-    exact Or.inl ⟨g, hop, Or.inl (by rw [hs']; rfl)⟩
-  · -- handler 1
-    obtain ⟨hs', hg⟩ := shape_alts _ _ _ _ hnl hf
-    have hop : g ∈ ops := by
-      simp only [List.mem_cons, List.not_mem_nil, or_false] at hg
-      rcases hg with h | h | h | h | h | h <;> simp [ops, h]
-    exact Or.inl ⟨g, hop, Or.inr <| Or.inl (by rw [hs']; rfl)⟩
-  · -- handler 2
-    obtain ⟨hs', hg⟩ := shape_alts _ _ _ _ hnl hf
-    have hop : g ∈ ops := by
-      simp only [List.mem_cons, List.not_mem_nil, or_false] at hg
-      rcases hg with h | h | h | h | h | h <;> simp [ops, h]
-    exact Or.inl ⟨g, hop, Or.inr <| Or.inr <| Or.inl (by rw [hs']; rfl)⟩
-  · -- handler 3
-    obtain ⟨hs', _⟩ := shape_lit _ _ _ hnl hf
-    exact Or.inr (Or.inl (by rw [hs']; decide))
-  · -- handler 4
-    obtain ⟨hs', _⟩ := shape_lit _ _ _ hnl hf
-    exact Or.inr (Or.inl (by rw [hs']; decide))
-  · -- handler 5
-    obtain ⟨hs', hg⟩ := shape_alts _ _ _ _ hnl hf
-    have hop : g ∈ ops := by
-      simp only [List.mem_cons, List.not_mem_nil, or_false] at hg
-      rcases hg with h | h | h | h | h | h <;> simp [ops, h]
-    exact Or.inl ⟨g, hop, Or.inr <| Or.inr <| Or.inr <| Or.inl (by rw [hs']; rfl)⟩
-  · -- handler 6
-    obtain ⟨hs', hg⟩ := shape_alts _ _ _ _ hnl hf
-    have hop : g ∈ ops := by
-      simp only [List.mem_cons, List.not_mem_nil, or_false] at hg
-      rcases hg with h | h | h | h | h | h <;> simp [ops, h]
-    exact Or.inl ⟨g, hop, Or.inr <| Or.inr <| Or.inr <| Or.inr (by rw [hs']; rfl)⟩
-  · -- handler 7
-    obtain ⟨hs', _⟩ := shape_lit _ _ _ hnl hf
-    exact Or.inr (Or.inl (by rw [hs']; decide))
-  · -- handler 8
-    obtain ⟨hs', _⟩ := shape_lit _ _ _ hnl hf
-    exact Or.inr (Or.inl (by rw [hs']; decide))
-  · -- handler 9
-    obtain ⟨hs', _⟩ := shape_lit _ _ _ hnl hf
-    exact Or.inr (Or.inl (by rw [hs']; decide))
-  · -- handler 10
-    obtain ⟨hs', _⟩ := shape_lit _ _ _ hnl hf
-    exact Or.inr (Or.inl (by rw [hs']; decide))
-  · -- handler 11
-    obtain ⟨p, _, hs', hlen, hall⟩ := shape_two _ _ _ _ _ _ _ hnl hf
-    have hp := chars_rep 'I' p hall
-    refine Or.inr (Or.inr (Or.inl ⟨p.length + 1, by omega, Or.inl ?_⟩))
-    rw [hs', hp]
-    simp [dipName, List.replicate_succ]
-  · -- handler 12
-    obtain ⟨p, _, hs', hlen, hall⟩ := shape_two _ _ _ _ _ _ _ hnl hf
-    have hp := chars_rep 'U' p hall
-    refine Or.inr (Or.inr (Or.inl ⟨p.length + 1, by omega, Or.inr ?_⟩))
-    rw [hs', hp]
-    simp [dupName, List.replicate_succ]
-  · -- handler 13
-    obtain ⟨hg, p, hs', hlen, _⟩ := shape_many_whole _ _ _ _ _ _ hnl hf
-    rw [hg] at hrun
-    obtain ⟨px, hpx⟩ := pxr_run_inv _ _ _ _ _ hrun
-    obtain ⟨l, r, hname⟩ := buildPxrTree_sound _ _ _ hpx
-    refine Or.inr (Or.inr (Or.inr (Or.inl ⟨.node l r, ?_, Or.inl hname⟩)))
-    have h1 : s.length = 2 * (PairTree.node l r).leaves := by
-      rw [hname, pairName, List.length_append, List.length_singleton]; exact body_length _ _
-    have h2 : s.length = p.length + 2 := by rw [hs']; simp; omega
-    omega
-  · -- handler 14
-    obtain ⟨p, hg, hs', hlen, _⟩ := shape_three _ _ _ _ _ _ _ hnl hf
-    obtain ⟨px, hpx⟩ := unpxr_run_inv _ _ _ _ _ hrun
-    obtain ⟨l, r, hname⟩ := buildPxrTree_sound _ _ _ hpx
-    refine Or.inr (Or.inr (Or.inr (Or.inl ⟨.node l r, ?_, Or.inr (by rw [hs', hname])⟩)))
-    have h1 : g.length = 2 * (PairTree.node l r).leaves := by
-      rw [hname, pairName, List.length_append, List.length_singleton]; exact body_length _ _
-    have h2 : g.length = p.length + 2 := by rw [hg]; simp; omega
-    omega
-  · -- handler 15
-    obtain ⟨hs', hlen, hall⟩ := shape_many _ _ _ _ _ _ hnl hf
-    obtain ⟨q, hq, hql⟩ := chars_path g hall
-    refine Or.inr (Or.inr (Or.inr (Or.inr (Or.inl ⟨.A :: q, by simp; omega, ?_⟩))))
-    rw [hs', hq]
-    simp [cadrName, pathChars, Dir.char]
-  · -- handler 16
-    obtain ⟨hs', hlen, hall⟩ := shape_many _ _ _ _ _ _ hnl hf
-    obtain ⟨q, hq, hql⟩ := chars_path g hall
-    refine Or.inr (Or.inr (Or.inr (Or.inr (Or.inl ⟨.D :: q, by simp; omega, ?_⟩))))
-    rw [hs', hq]
-    simp [cadrName, pathChars, Dir.char]
-  · -- handler 17
-    obtain ⟨hs', _⟩ := shape_lit _ _ _ hnl hf
-    exact Or.inr (Or.inl (by rw [hs']; decide))
-  · -- handler 18
-    obtain ⟨hs', _⟩ := shape_lit _ _ _ hnl hf
-    exact Or.inr (Or.inl (by rw [hs']; decide))
-  · -- handler 19
-    obtain ⟨hs', _⟩ := shape_lit _ _ _ hnl hf
-    exact Or.inr (Or.inr (Or.inr (Or.inr (Or.inr ⟨[.A], by simp, Or.inl (by rw [hs']; rfl)⟩))))
-  · -- handler 20
-    obtain ⟨hs', _⟩ := shape_lit _ _ _ hnl hf
-    exact Or.inr (Or.inr (Or.inr (Or.inr (Or.inr ⟨[.D], by simp, Or.inl (by rw [hs']; rfl)⟩))))
-  · -- handler 21
-    obtain ⟨hs', hlen, hall⟩ := shape_many _ _ _ _ _ _ hnl hf
-    obtain ⟨q, hq, hql⟩ := chars_path g hall
-    refine Or.inr (Or.inr (Or.inr (Or.inr (Or.inr ⟨.A :: q, by simp, Or.inl ?_⟩))))
-    rw [hs', hq]
-    simp [setName, pathChars, Dir.char]
-  · -- handler 22
-    obtain ⟨hs', hlen, hall⟩ := shape_many _ _ _ _ _ _ hnl hf
-    obtain ⟨q, hq, hql⟩ := chars_path g hall
-    refine Or.inr (Or.inr (Or.inr (Or.inr (Or.inr ⟨.D :: q, by simp, Or.inl ?_⟩))))
-    rw [hs', hq]
-    simp [setName, pathChars, Dir.char]
-  · -- handler 23
-    obtain ⟨hs', _⟩ := shape_lit _ _ _ hnl hf
-    exact Or.inr (Or.inr (Or.inr (Or.inr (Or.inr ⟨[.A], by simp, Or.inr (by rw [hs']; rfl)⟩))))
-  · -- handler 24
-    obtain ⟨hs', _⟩ := shape_lit _ _ _ hnl hf
-    exact Or.inr (Or.inr (Or.inr (Or.inr (Or.inr ⟨[.D], by simp, Or.inr (by rw [hs']; rfl)⟩))))
-  · -- handler 25
-    obtain ⟨hs', hlen, hall⟩ := shape_many _ _ _ _ _ _ hnl hf
-    obtain ⟨q, hq, hql⟩ := chars_path g hall
-    refine Or.inr (Or.inr (Or.inr (Or.inr (Or.inr ⟨.A :: q, by simp, Or.inr ?_⟩))))
-    rw [hs', hq]
-    simp [mapName, pathChars, Dir.char]
-  · -- handler 26
-    obtain ⟨hs', hlen, hall⟩ := shape_many _ _ _ _ _ _ hnl hf
-    obtain ⟨q, hq, hql⟩ := chars_path g hall
-    refine Or.inr (Or.inr (Or.inr (Or.inr (Or.inr ⟨.D :: q, by simp, Or.inr ?_⟩))))
-    rw [hs', hq]
-    simp [mapName, pathChars, Dir.char]
-
-theorem accepts_of (s : List Char) (ht : tags.contains s = false) (k : Nat) (hk : k ∈ [0, 1, 2]) (m : Mich)
-    (h : expandMacro s [] (List.replicate k (.seq [])) = .ok m) : acceptsName s = true := by
-  unfold acceptsName
-  rw [primTags_eq]
-  simp only [ht, Bool.not_false, Bool.true_and, List.any_eq_true]
-  exact ⟨k, hk, by rw [h]⟩
 
 /-- the dispatch accepts exactly the names of the reference macro set: for every string without a newline,
 `expand_macro` accepts it as a macro (it is not a primitive, and the expansion succeeds without annotations for 0, 1 or
@@ -675,6 +508,26 @@ theorem macro_name_grammar (s : List Char) (hnl : '\n' ∉ s) : acceptsName s = 
         | [.D], _ => exact accepts_of _ (not_tag_of_dispatch dispatch_MAP_CDR) 1 (by simp) m hm
         | .A :: e :: q, _ => exact accepts_of _ (not_tag_of_dispatch (dispatch_map_A (e :: q) (by simp))) 1 (by simp) m hm
         | .D :: e :: q, _ => exact accepts_of _ (not_tag_of_dispatch (dispatch_map_D (e :: q) (by simp))) 1 (by simp) m hm
+
+/-- the family the pinned tree got wrong, as a recogniser equality: a name starting with `P` is accepted as a macro iff
+it is the name of a pair tree with at least three leaves (left leaves `A`, right leaves `I`, nothing but the final `R`
+after the tree) -/
+theorem pair_names (t : List Char) (hnl : '\n' ∉ ('P' :: t)) :
+    acceptsName ('P' :: t) = true ↔ ∃ tr : PairTree, 3 ≤ tr.leaves ∧ 'P' :: t = pairName tr := by
+  rw [macro_name_grammar _ hnl]
+  constructor
+  · intro h
+    rcases h with ⟨op, _, h⟩ | h | ⟨n, _, h⟩ | ⟨tr, h3, h⟩ | ⟨p, _, h⟩ | ⟨p, _, h⟩
+    · rcases h with h | h | h | h | h <;> simp at h
+    · simp [fixedNames] at h
+    · rcases h with h | h <;> simp [dipName, dupName] at h
+    · rcases h with h | h
+      · exact ⟨tr, h3, h⟩
+      · simp [unpairName] at h
+    · simp [cadrName] at h
+    · rcases h with h | h <;> simp [setName, mapName] at h
+  · rintro ⟨tr, h3, h⟩
+    exact Or.inr (Or.inr (Or.inr (Or.inl ⟨tr, h3, Or.inl h⟩)))
 
 /-- in particular the ill-formed tree names the pinned code expanded to a bare `PAIR` are not accepted -/
 example : acceptsName "PAAIR".toList = false := by rfl
